@@ -32,6 +32,7 @@ from typing import (
 )
 
 from ._core._eventloop import (
+    future_outcome,
     get_cancelled_exc_class,
     threadlocals,
 )
@@ -162,7 +163,7 @@ class _BlockingAsyncContextManager(AbstractContextManager, Generic[T_co]):
     def __enter__(self) -> T_co:
         self._enter_future = Future()
         self._exit_future = self._portal.start_task_soon(self.run_async_cm)
-        return self._enter_future.result()
+        return future_outcome(self._enter_future)
 
     def __exit__(
         self,
@@ -173,7 +174,7 @@ class _BlockingAsyncContextManager(AbstractContextManager, Generic[T_co]):
     ) -> bool | None:
         self._exit_exc_info = exc_type, exc_value, traceback
         self._portal.call(self._exit_event.set)
-        return self._exit_future.result()
+        return future_outcome(self._exit_future)
 
 
 class _BlockingPortalTaskStatus(TaskStatus):
@@ -351,7 +352,7 @@ class BlockingPortal:
             from within the event loop thread
 
         """
-        return cast(T_Retval, self.start_task_soon(func, *args).result())
+        return cast(T_Retval, future_outcome(self.start_task_soon(func, *args)))
 
     @overload
     def start_task_soon(
@@ -425,7 +426,7 @@ class BlockingPortal:
             if not task_status_future.done():
                 if future.cancelled():
                     task_status_future.cancel()
-                elif future.exception():
+                elif future.exception() is not None:
                     task_status_future.set_exception(future.exception())
                 else:
                     exc = RuntimeError(
@@ -439,7 +440,7 @@ class BlockingPortal:
         f: Future = Future()
         f.add_done_callback(task_done)
         self._spawn_task_from_thread(func, args, {"task_status": task_status}, name, f)
-        return f, task_status_future.result()
+        return f, future_outcome(task_status_future)
 
     def wrap_async_context_manager(
         self, cm: AbstractAsyncContextManager[T_co]
